@@ -17,8 +17,10 @@ except Exception:
 notes = open(os.path.join(dst, "notes.md")).read() if os.path.exists(os.path.join(dst, "notes.md")) else ""
 confirmed = res.get("applies") and res.get("demo_base_exit") == 0 and res.get("demo_patched_exit") not in (0, None) \
     and res.get("suite_same") is True
+import re
+expected_rules = sorted({m.group(1) for d in (res.get("details") or []) for m in [re.match(r"(R-[A-Z0-9-]+) ", d)] if m})
 meta = {
-    "id": sid, "breaks_property": prop,
+    "id": sid, "breaks_property": prop, "expected_rules": expected_rules,
     "origin": "written by an independent sub-agent given only the property text and a scratch worktree",
     "needs_to_manifest": notes.strip()[:1500],
     "confirmed": bool(confirmed),
